@@ -1651,6 +1651,11 @@ impl<D: DependencyProvider, RT: AsyncRuntime> Solver<D, RT> {
             origins,
             events: state.decision_tracker.verif_events.clone(),
             trail,
+            negative_assertions: state
+                .negative_assertions
+                .iter()
+                .map(|(_, clause)| clause.to_usize() as u32)
+                .collect(),
         }
     }
 }
